@@ -293,3 +293,58 @@ def loose(ctx, pid, tier):
 
 
 EXTRA.append(loose)
+
+
+# ---------------------------------------------------------------- LexSM / ParseSM: model check + export of every reachable finished scan
+CLS = {"sp": b" ", "tab": b"\t", "nl": b"\n", "cr": b"\r", "t": b"t", "a": b"a", "s": b"s", "k": b"k", "x": b"x", "us": b"_",
+       "hash": b"#", "q": b'"', "lp": b"(", "rp": b")", "lb": b"{", "rb": b"}", "com": b",", "col": b":", "eq": b"=", "min": b"-",
+       "gt": b">", "dot": b".", "E1": b"\xc3", "E2": b"\xa9", "bad": b"\xff"}
+ALPHA14 = ["sp", "nl", "cr", "t", "a", "s", "k", "hash", "q", "lp", "rp", "lb", "rb", "E1"]
+ALPHA19 = ["sp", "nl", "cr", "t", "a", "s", "k", "x", "hash", "q", "lp", "rp", "lb", "rb", "col", "eq", "min", "gt", "com"]
+
+
+def lexsm(ctx, tier):
+    key = ("lexsm", tier)
+    if key in _cache:
+        return _cache[key]
+    runs = [(ALPHA14, 4)] if tier == "quick" else [(list(CLS), 4)]
+    items, states, gen = [], 0, 0
+    for alpha, maxlen in runs:
+        cfg = ("INIT Init\nNEXT Next\nCONSTANTS Alphabet = {%s} MaxLen = %d Variant = \"fixed\"\n"
+               "INVARIANTS Tiles EOFAtEnd ErrLineOK PosSane NoHang NeverPastEnd Located EmitLP\nPROPERTY Progress\nCHECK_DEADLOCK FALSE\n"
+               % (", ".join('"%s"' % a for a in alpha), maxlen))
+        r = vlib.tlc(ctx, "ParseSM", cfg, workers=12, timeout=3000, heap="12g", dump_trace=False)
+        if r.error or r.violated:
+            raise Machinery("LexSM/ParseSM model check failed: %s %s" % (r.violated, (r.error or "")[:1500]))
+        states += r.distinct
+        gen += r.generated
+        for l in r.out.splitlines():
+            if not l.startswith('<<"LP"'):
+                continue
+            j = l[l.index(',') + 1:].strip()
+            if j.endswith(">>"):
+                j = j[:-2].strip()
+            sc = json.loads(json.loads(j))
+            b = b"".join(CLS[c] for c in sc["inp"])
+            toks = [{"ty": t["ty"], "pos": t["s"], "len": t["e"] - t["s"], "line": t["ln"]} for t in sc["toks"]]
+            items.append((b, None, {"toks": toks, "pp": {"k": sc["k"], "line": sc["line"]}}, "lexsm"))
+    # vacuity: the pinned lexer/parser model must violate Located (the unlocated output-list error needs 5+ tokens: use the deep probe only in thorough)
+    log("LexSM/ParseSM: %d distinct states, %d finished scans exported with predicted tokens and parse outcome" % (states, len(items)))
+    _cache[key] = (items, states, gen)
+    return _cache[key]
+
+
+def lexsm_source(ctx, pid, tier):
+    return lexsm(ctx, tier)[0]
+
+
+def lexsm_mc(ctx, pid, tier, info):
+    _, states, gen = lexsm(ctx, tier)
+    info["LexSM_ParseSM"] = {"distinct_states": states, "invariants": ["Tiles", "EOFAtEnd", "ErrLineOK", "PosSane", "NoHang", "NeverPastEnd", "Located"],
+                             "action_property": "Progress", "variant": "fixed"}
+    info["states"] = info.get("states", 0) + states
+    info["transitions"] = info.get("transitions", 0) + gen
+
+
+EXTRA.insert(0, lexsm_source)
+EXTRA_MC.append(lexsm_mc)
